@@ -82,8 +82,10 @@ impl Prop for C14 {
             {
                 if !labels.contains_key(s) && ch.chance(2, 3) {
                     n += 1;
-                    let new = match ch.below(6) {
+                    let new = match ch.below(7) {
                         0 => format!("L{n}"),
+                        // upper-case look-alikes of register names are ordinary labels
+                        6 => format!("{}{n}", ["T", "S", "A", "X"][n % 4]),
                         4 => format!("__{s}"),
                         5 => format!("__x{n}__"),
                         1 => format!("_{}_{n}", s.to_uppercase()),
